@@ -431,26 +431,28 @@ Inductive gkind :=
 | GElidedRec           (* STAT ElidedFallbackName { ... } *)
 | GElidedId (id : N).  (* STAT ElidedFallbackNameID <id> *)
 
-(* ids as the FEA compilation (before remapping) refers to them *)
-Record fea_refs := { r_adj : list N; r_size : list N; r_elided : option N }.
-Definition refs_empty : fea_refs := {| r_adj := []; r_size := []; r_elided := None |}.
+(* ids as the FEA compilation (before remapping) refers to them; r_all lists the id
+   of every anonymous group in allocation order *)
+Record fea_refs := { r_adj : list N; r_size : list N; r_elided : option N; r_all : list N }.
+Definition refs_empty : fea_refs := {| r_adj := []; r_size := []; r_elided := None; r_all := [] |}.
+
+Definition is_anon (k : gkind) : bool :=
+  match k with GAdj | GAnon | GSize | GElidedRec => true | _ => false end.
 
 (* one allocation step; None = the compiler panics (ElidedFallbackNameID not in the FEA name table) *)
 Definition fea_step (st : fnb * fea_refs) (g : gkind * list nspec) : option (fnb * fea_refs) :=
   let '(b, r) := st in
   match fst g with
   | GExplicit id => Some (fold_left (fun b sp => fnb_add b id sp) (snd g) b, r)
-  | GAdj => let '(b', id) := fnb_anon b (snd g) in
-            Some (b', {| r_adj := r_adj r ++ [id]; r_size := r_size r; r_elided := r_elided r |})
-  | GAnon => let '(b', id) := fnb_anon b (snd g) in
-             Some (b', {| r_adj := r_adj r ++ [id]; r_size := r_size r; r_elided := r_elided r |})
-  | GSize => let '(b', id) := fnb_anon b (snd g) in
-             Some (b', {| r_adj := r_adj r; r_size := r_size r ++ [id]; r_elided := r_elided r |})
-  | GElidedRec => let '(b', id) := fnb_anon b (snd g) in
-                  Some (b', {| r_adj := r_adj r; r_size := r_size r; r_elided := Some id |})
   | GElidedId id => if fnb_contains b id
-                    then Some (b, {| r_adj := r_adj r; r_size := r_size r; r_elided := Some id |})
+                    then Some (b, {| r_adj := r_adj r; r_size := r_size r; r_elided := Some id; r_all := r_all r |})
                     else None
+  | k =>
+      let '(b', id) := fnb_anon b (snd g) in
+      Some (b', {| r_adj := match k with GAdj | GAnon => r_adj r ++ [id] | _ => r_adj r end;
+                   r_size := match k with GSize => r_size r ++ [id] | _ => r_size r end;
+                   r_elided := match k with GElidedRec => Some id | _ => r_elided r end;
+                   r_all := r_all r ++ [id] |})
   end.
 
 Fixpoint fea_alloc (st : fnb * fea_refs) (prog : list (gkind * list nspec)) : option (fnb * fea_refs) :=
@@ -486,7 +488,8 @@ Definition remap (first_avail : N) (recs : list frec) (r : fea_refs) : list frec
     (map (fun e => let '((p, en, l, id), s) := e in ((p, en, l, adjust_id offset id), s)) recs,
      {| r_adj := map (adjust_id offset) (r_adj r);
         r_size := r_size r;                                  (* FeatureParams::Size is not matched *)
-        r_elided := option_map (fun id => sat_add16 id offset) (r_elided r) |}).
+        r_elided := option_map (fun id => sat_add16 id offset) (r_elided r);
+        r_all := r_all r |}).
 
 (* features.rs: only when the FEA produced a name table, and only past the reserved range *)
 Definition max_name_id (nm : names) : N := fold_left (fun m e => N.max m (fst (fst e))) nm 255.
